@@ -347,7 +347,7 @@ func setterLayers(j judge, tier string) []Layer {
 		layers = append(layers, Layer{
 			Name:   "S4-SetMantExp",
 			Units:  len(xs),
-			Bounds: fmt.Sprintf("z.SetMantExp(mant, e): mant from %d values (own precision and mode) placed at exponents %v, e in %d offsets incl. ±2^31±2, ±2^32, int64 extremes; receiver distinct or identical to mant; 3 receiver pre-states", len(xs), mexps, len(offs)),
+			Bounds: fmt.Sprintf("z.SetMantExp(mant, e): mant from %d values (own precision and mode) placed at exponents %v, e in %d offsets incl. ±2^31±2, ±2^32, int64 extremes; receiver distinct or identical to mant; 3 receiver pre-states; mant Exact or still carrying Below/Above from a real rounding", len(xs), mexps, len(offs)),
 			Run: func(c *Ctx, u int) {
 				for _, me := range mexps {
 					mo := *xs[u]
@@ -358,20 +358,27 @@ func setterLayers(j judge, tier string) []Layer {
 						continue
 					}
 					for _, off := range offs {
-						for _, kind := range []int{0, 1, 2, 3} {
+						for _, kind := range []int{0, 1, 2, 3, 4, 5} {
 							if c.Skip() {
 								continue
 							}
 							mant := mo.Build()
+							if kind >= 4 {
+								// mant still carries Below/Above from the rounding that produced it
+								mant = mo.buildVariant(1)
+								if mant.Acc() == 0 {
+									continue
+								}
+							}
 							var z *Dec
 							switch kind {
-							case 0:
+							case 0, 4:
 								z = new(Dec)
 							case 1:
 								z = buildPre(preLonger, 3, ToZero)
 							case 2:
 								z = buildPre(preNegInf, 50, AwayFromZero)
-							case 3:
+							case 3, 5:
 								z = mant
 							}
 							pv, _ := protect(func() { z.SetMantExp(mant, int(off)) })
@@ -395,8 +402,8 @@ func setterLayers(j judge, tier string) []Layer {
 								if ob := Observe(z); ob.Prec != mo.Prec || ob.Mode != mo.Mode {
 									c.Fail(key()+" attributes", fmt.Sprintf("result must have mant's precision and mode (%d, %d), got %s", mo.Prec, mo.Mode, ob))
 								}
-								if kind != 3 {
-									if msg := mo.CheckBuilt(mant); msg != "" {
+								if kind != 3 && kind != 5 {
+									if msg := mo.CheckBuilt2(Observe(mant)); msg != "" {
 										c.Fail(key()+" operand", "mant modified: "+msg)
 									}
 								}
@@ -456,11 +463,14 @@ func getterCase(c *Ctx, xo *Opnd) {
 		}
 		return -1
 	}
+	var keepInt *big.Int // results kept while other values are converted (retention check at the end)
+	var keepRat, wantRat *big.Rat
 	// Int
 	{
 		var got *big.Int
 		var acc decimal.Accuracy
 		pv, _ := protect(func() { got, acc = x.Int(nil) })
+		keepInt = got
 		switch {
 		case pv != nil:
 			c.Fail(key("Int"), fmt.Sprintf("panic: %v", pv))
@@ -564,6 +574,7 @@ func getterCase(c *Ctx, xo *Opnd) {
 			if got == nil || got.Cmp(want) != 0 || acc != 0 {
 				c.Fail(key("Rat"), fmt.Sprintf("got %v acc %v, want %v Exact", got, acc, want))
 			}
+			keepRat, wantRat = got, want
 			if v.Form == fFinite {
 				// supplied Rat with garbage
 				z := big.NewRat(-355, 113)
@@ -588,12 +599,44 @@ func getterCase(c *Ctx, xo *Opnd) {
 			c.Fail(key("MinPrec"), fmt.Sprintf("got %d want %d", x.MinPrec(), wantMP))
 		}
 	}
+	// retention: the big.Int / big.Rat returned above must not be invalidated by conversions of other values
+	if v.Form == fFinite && (keepInt != nil || keepRat != nil) {
+		for _, o := range retentionOthers() {
+			protect(func() {
+				o.Int(nil)
+				o.Rat(nil)
+				o.Float(nil)
+				o.Int64()
+				o.Float64()
+			})
+		}
+		if keepInt != nil && keepInt.Cmp(ip) != 0 {
+			c.Fail(key("Int retention"), fmt.Sprintf("the returned *big.Int changed to %v after conversions of other values, want %v", keepInt, ip))
+		}
+		if keepRat != nil && wantRat != nil && keepRat.Cmp(wantRat) != 0 {
+			c.Fail(key("Rat retention"), fmt.Sprintf("the returned *big.Rat changed to %v after conversions of other values, want %v", keepRat, wantRat))
+		}
+	}
 	if msg := xo.CheckBuilt(x); msg != "" {
 		c.Fail(key("operand"), "x modified by a getter: "+msg)
 	}
 	if c.WantSample() {
 		c.Sample("getters x=" + xo.String())
 	}
+}
+
+var retOthers []*Dec
+
+// retentionOthers: a short and a 40-word value converted between a getter call and the re-inspection of its result.
+func retentionOthers() []*Dec {
+	if retOthers == nil {
+		w := make([]uint64, 40)
+		for i := range w {
+			w[i] = BW - 1 - uint64(i)
+		}
+		retOthers = []*Dec{mkInt64(-98765, -2, 34, 0).Build(), mkWords(false, w, 800, 0, 0).Build()}
+	}
+	return retOthers
 }
 
 func getterLayers(tier string) []Layer {
